@@ -18,15 +18,17 @@ EXTENDS Naturals, Sequences, FiniteSets, TLC
 Forms == {"data1", "data2", "data4", "data8", "sdata", "udata", "block1"}
 Holders == {"var", "enr"}
 \* type chain shapes for a variable; for an enumerator the chain starts at its enumeration type
-TyShapes == {"none", "base", "typedef-base", "cv-typedef-base", "enum-typed", "enum-typedef-typed", "enum-untyped",
-             "pointer", "ptrmember", "struct"}
+\* "deep-...": twelve typedef / const / volatile levels -- the statement says "following typedef/cv/enumeration
+\* chains", of whatever length
+TyShapes == {"none", "base", "typedef-base", "cv-typedef-base", "deep-typedef-base", "enum-typed", "enum-typedef-typed",
+             "enum-deep-typed", "enum-untyped", "pointer", "ptrmember", "struct"}
 Encs == {"signed", "unsigned", "boolean", "signed_char", "unsigned_char", "float"}
 EnrForms == {"none", "sdata", "udata", "mixed"}
 ValClasses == {"zero", "one", "top", "max"}
 
 Descs == {d \in [form: Forms, holder: Holders, ty: TyShapes, enc: Encs, enrs: EnrForms, vc: ValClasses] :
             \* an enumerator lives in an enumeration type
-            /\ (d.holder = "enr" => d.ty \in {"enum-typed", "enum-typedef-typed", "enum-untyped"})
+            /\ (d.holder = "enr" => d.ty \in {"enum-typed", "enum-typedef-typed", "enum-deep-typed", "enum-untyped"})
             \* sibling enumerator forms only matter for untyped enumerations
             /\ (d.ty # "enum-untyped" => d.enrs = "none")
             \* the encoding only matters when a base type is reached
@@ -40,7 +42,8 @@ ByEnc(e) == CASE e \in {"signed", "signed_char"} -> "signed"
               [] e \in {"unsigned", "unsigned_char"} -> "unsigned"
               [] e = "boolean" -> "bool"
               [] e = "float" -> "any"          \* not interpreted: a block, a diagnostic or an error
-ReachesBase(ty) == ty \in {"base", "typedef-base", "cv-typedef-base", "enum-typed", "enum-typedef-typed"}
+ReachesBase(ty) == ty \in {"base", "typedef-base", "cv-typedef-base", "deep-typedef-base", "enum-typed", "enum-typedef-typed",
+                           "enum-deep-typed"}
 
 Documented(d) ==
     IF d.form = "sdata" THEN "signed"
